@@ -635,6 +635,12 @@ def outside_cases(tier):
         add(f'KILL/{s[:12]!r}{len(s)}', 'KILL', [f's$ = "{s}"'], ['KILL s$'])
         add(f'BLOAD/{s[:12]!r}{len(s)}', 'BLOAD', [f's$ = "{s}"'], ['BLOAD s$, 0'])
         add(f'BSAVE/{s[:12]!r}{len(s)}', 'BSAVE', [f's$ = "{s}"'], ['BSAVE s$, 0, 10'])
+    # names the operating system interface refuses (embedded NUL)
+    for tag, e in (('NUL', 'CHR$(0)'), ('aNULb', '"a" + CHR$(0) + "b"')):
+        add(f'KILL/name-{tag}', 'KILL', [f's$ = {e}'], ['KILL s$'])
+        add(f'BLOAD/screen/name-{tag}', 'BLOAD', [f's$ = {e}'], ['DEF SEG = &HB800', 'BLOAD s$, 0'])
+        add(f'BSAVE/screen/name-{tag}', 'BSAVE', [f's$ = {e}'], ['DEF SEG = &HB800', 'BSAVE s$, 0, 10'])
+        add(f'PLAY/name-{tag}', 'PLAY', [f's$ = {e}'], ['PLAY s$'])
     for v in pool:
         add(f'BLOAD/offset={v}', 'BLOAD', [f'v% = {v}'], ['BLOAD "f", v%'])
         add(f'BSAVE/offset={v}', 'BSAVE', [f'v% = {v}'], ['BSAVE "f", v%, 1'])
